@@ -373,6 +373,34 @@ def check_case(case, rec):
     if orders(t2) != orders(t) or per_atom(t2) != per_atom(t):
         rec.fail('thiele-default-idempotent', f'{str(t)!r}: second thiele() gives {str(t2)!r}')
         return
+    # ---- canonicalize(keep_kekule=True): the Kekule form handed back must belong to the aromatic form canonicalize() gives
+    # (same per-atom hydrogens, a valid state on every atom, re-aromatising to that form) - also when tautomer fixing moved a hydrogen
+    if aromatic and not mk.check_valence():
+        from ..oracles import valence_ref
+        ck, ca = mk.copy(), mk.copy()
+        from ..oracles import wl
+        try:
+            ck.canonicalize(keep_kekule=True)
+            ca.canonicalize()
+            ok = True
+        except Exception as e:
+            from ..core import chython_frame
+            ok = False
+            rec.fail('canonicalize', f'{label!r}: canonicalize raised {type(e).__name__}: {e}',
+                     sig='fused-cp-anion' if wl.fused_cp_anion(mk) else f'{type(e).__name__}@{chython_frame(e.__traceback__)}')
+        if ok and (ca.check_valence() or any(at.implicit_hydrogens is None for _, at in ca.atoms())):
+            rec.count('keep-kekule:skip (canonicalize() itself reports an invalid result: C14 matter)')
+        elif ok and not any(x.order == 4 for *_, x in ck.bonds()) and len(ck) == len(ca):
+            for n, at in ck.atoms():
+                if at.implicit_hydrogens not in valence_ref.implicit_h_all(at, valence_ref.atom_neighbours(ck, n)):
+                    rec.fail('keep-kekule', f'{label!r}: canonicalize(keep_kekule=True) gives {str(ck)!r}: atom {n} ({at.atomic_symbol}) keeps '
+                                            f'{at.implicit_hydrogens} hydrogens, not a state of the element tables for its bonds', sig='stored-H')
+                    return
+            if per_atom(ck) != per_atom(ca):
+                rec.fail('keep-kekule', f'{label!r}: per-atom data of canonicalize(keep_kekule=True) {str(ck)!r} differ from canonicalize() '
+                                        f'{str(ca)!r}', sig='per-atom')
+                return
+            rec.count('keep-kekule-compared')
     # ---- enumerated Kekule forms
     if aromatic:
         gap4 = four_ring_gap(a)
